@@ -12,6 +12,9 @@ import (
 type Body struct {
 	Size int    `json:"size"`
 	Kind string `json:"kind"` // known | unknown | unknown1 | lenger
+	// Form: sent as application/x-www-form-urlencoded, so that a body processor reads the buffered body in phase 2
+	// before the handler does (otherwise application/octet-stream: no processor)
+	Form bool `json:"form,omitempty"`
 }
 
 const reqAlphabet = "0123456789ABCDEFGHIJKLMNOPQRSTUVWXYZ"
@@ -50,6 +53,9 @@ func newRequest(b Body) *http.Request {
 	req := httptest.NewRequest("POST", "http://h.test/p?x=1", nil)
 	req.RemoteAddr = "10.0.0.1:4321"
 	req.Header.Set("Content-Type", "application/octet-stream")
+	if b.Form {
+		req.Header.Set("Content-Type", "application/x-www-form-urlencoded")
+	}
 	switch b.Kind {
 	case "known":
 		req.ContentLength = int64(b.Size)
